@@ -44,6 +44,32 @@ func (in *instance) argFor(op, tok string, m flat) (any, error) {
 	switch in.kind {
 	case "steps":
 		return nil, nil // the input of the step / signal is fixed (callStep)
+	case "objdep":
+		// paths n, t, sa, sb stand for the fields a, b, c, d
+		if (op == "valid" || op == "ser") && in.origin != "rebuilt" {
+			d := Dep{}
+			for _, f := range []struct {
+				v   int64
+				dst **int64
+			}{{m.N, &d.A}, {m.T, &d.B}, {m.Sa, &d.C}, {m.Sb, &d.D}} {
+				if f.v >= 0 {
+					v := f.v
+					*f.dst = &v
+				}
+			}
+			return d, nil
+		}
+		a := map[string]any{}
+		for k, v := range map[string]int64{"a": m.N, "b": m.T, "c": m.Sa, "d": m.Sb} {
+			if v >= 0 {
+				if op == "unser" {
+					a[k] = int(v)
+				} else {
+					a[k] = v
+				}
+			}
+		}
+		return a, nil
 	case "objmap", "objstruct", "meta":
 		if tok == "bad" {
 			return map[string]any{"zz": int64(1)}, nil
@@ -106,7 +132,7 @@ func (in *instance) argFor(op, tok string, m flat) (any, error) {
 		}
 	case "oneof":
 		switch tok {
-		case "member_a":
+		case "member_a", "member_a_bad":
 			if op == "unser" {
 				return map[string]any{discField: "a", "n": int(m.N)}, nil
 			}
@@ -223,6 +249,17 @@ func flatOf(v any) (flat, error) {
 		return f, nil
 	case map[string]any:
 		return flatOfMap(x, false)
+	case Dep:
+		f := emptyFlat
+		for _, p := range []struct {
+			src *int64
+			dst *int64
+		}{{x.A, &f.N}, {x.B, &f.T}, {x.C, &f.Sa}, {x.D, &f.Sb}} {
+			if p.src != nil {
+				*p.dst = *p.src
+			}
+		}
+		return f, nil
 	case MemberA:
 		return flat{x.N, 1, -1, -1}, nil
 	case MemberB:
@@ -300,6 +337,39 @@ func (in *instance) call(op, tok string, m flat) (o obs) {
 	}
 	// abstraction
 	switch in.kind {
+	case "objdep":
+		if !hasValue {
+			o.M = m
+			return o
+		}
+		if mp, isMap := res.(map[string]any); isMap {
+			f := emptyFlat
+			for k, v := range mp {
+				i, ok := toInt(v)
+				if !ok {
+					o.FlatErr = fmt.Sprintf("objdep property %s has value %T", k, v)
+				}
+				switch k {
+				case "a":
+					f.N = i
+				case "b":
+					f.T = i
+				case "c":
+					f.Sa = i
+				case "d":
+					f.Sb = i
+				default:
+					o.FlatErr = "objdep: unexpected key " + k
+				}
+			}
+			o.M = f
+			return o
+		}
+		f, ferr := flatOf(res)
+		if ferr != nil {
+			o.FlatErr = ferr.Error()
+		}
+		o.M = f
 	case "objmap", "objstruct", "meta", "oneof":
 		if !hasValue {
 			o.M = m // Validate / ValidateCompatibility have no value: the model echoes the argument
